@@ -167,6 +167,7 @@ def insert_one(name, defs, unmarked_only=False, middle=None):
         locals={"inserted": Dict(INT, BOOL), "others": NODES},
         ensures=ens,
         canaries={"unchanged": f"{F} == {S0}"},
+        portfolio=["cvc5"],  # the closed-form re-binding hints are slice-of-concatenation equations: cvc5 rewrites them, z3-5.1 times out
         hints={k: v + ([f"len(others) == {nD}"] if D and k == "feaFile.statements = statements = others + statements" else [])
                for k, v in HINTS.items() if _stmt_runs(k, unmarked_only, middle)},
         ghost_vars={"gP": (NODES, "[]"), "gS": (NODES, "[]"), "gL": (NODES, "[]"), "g_mid": (BOOL, "False"), "gA": (Ref(NODE), "features[0]")},
@@ -410,6 +411,7 @@ def insert_two(name, marked):
         locals={"inserted": Dict(INT, BOOL), "others": NODES, "indices": List(INT)},
         ensures=ens,
         canaries={"unchanged": f"{F} == {S0}"},
+        portfolio=["cvc5"],  # the closed-form re-binding hints are slice-of-concatenation equations: cvc5 rewrites them, z3-5.1 times out
         hints={k: v for k, v in _HINTS2.items() if k != ("index = len(statements)" if marked == 1 else "statements.insert(index, features[i])")},
         ghost_vars={"gP": (NODES, "[]"), "gS": (NODES, "[]"), "gL": (NODES, "[]"), "gM": (NODES, "[]"), "gT": (NODES, "[]"), "g_app": (BOOL, "False")},
         ghost={k: v for k, v in _GHOST2.items() if k != ("index = len(statements)" if marked == 1 else "statements.insert(index, features[i])")},
